@@ -132,6 +132,13 @@ const unsigned short **__ctype_b_loc (void)
   return &vf_ctype_ptr; }
 #endif
 
+/* libc raise() (used by __gmp_invalid_operation) has no body under CBMC: reaching it is the documented SIGFPE abort.
+   Harnesses that expect it set vf_expect_raise. */
+#ifndef REPLAY
+static int vf_expect_raise = 0;
+int raise (int sig) { __CPROVER_assert (vf_expect_raise, "raise(SIGFPE) reached only where an invalid operation is documented"); __CPROVER_assume (0); return 0; }
+#endif
+
 /* fidelity witness (probe P2): the encoding must see the real type sizes */
 #define VF_FIDELITY() do { CHECK (sizeof (mp_limb_t) == 8, "fidelity: limb is 64 bit"); \
   CHECK (sizeof (UDItype) == 8, "fidelity: UDItype is 64 bit"); \
